@@ -513,7 +513,8 @@ Proof.
   destruct (rev w) as [|x r] eqn:Er.
   - split; [|exact H]. intros Hne. exfalso. apply Hne, rev_nil_inv, Er.
   - inversion H as [|? ? Hx Hrest]; subst. split; [|exact Hrest].
-    intros _. rewrite <- Er, rev_involutive in Hx. exact Hx.
+    intros _. change (rev r ++ [x]) with (rev (x :: r)) in Hx.
+    rewrite <- Er, rev_involutive in Hx. exact Hx.
 Qed.
 
 Lemma words_step_nws c s w :
@@ -551,7 +552,9 @@ Lemma sim : forall s b p w,
 Proof.
   induction s as [|c s IH]; intros b p w HI Hok Hwords Hfits.
   - exists b, [], [], p, w. cbn [add_chars split_lines_aux app].
-    rewrite rev_involutive, app_nil_r. repeat split; try reflexivity; [constructor|exact HI].
+    rewrite rev_involutive, app_nil_r.
+    split; [reflexivity|]. split; [reflexivity|]. split; [reflexivity|].
+    split; [constructor|exact HI].
   - inversion Hok as [|? ? Hc Hok']; subst.
     cbn [add_chars split_lines_aux] in *.
     destruct (N.eqb_spec (cp c) 10) as [H10|H10].
@@ -645,6 +648,206 @@ Proof.
   - inversion HFe; subst. rewrite app_nil_r. exact HF.
 Qed.
 
+(* ------------------------------------------------------------------ *)
+(* Part 6b: tags only.  The same walk with an invariant that tracks widths and tags but
+   not strings: it does not need `words_pos` (a zero-width word that slides behind spaces
+   or onto the next line changes the strings, not the widths or the tags). *)
+
+Definition linesT (ls : list tline) : Prop := Forall (fun l => Forall tagged (tv l)) ls.
+
+Record QInv (b : wblock) (col : N) : Prop := mkQInv {
+  Q_w : wwidth b = W;
+  Q_pad : pad_blocks b = false;
+  Q_pw : pre_wrapped b = false;
+  Q_col : tlen_ (wline b) + wslen b + wordlen b = col;
+  Q_fit : col <= W;
+  Q_tagl : Forall tagged (tv (wline b));
+  Q_tagw : Forall tagged (wword b);
+  Q_vw : vw (wword b) = wordlen b;
+  Q_st : match spacetag b with Some t => t = t1 | None => wslen b = 0 end;
+  Q_text : linesT (wtext b)
+}.
+
+Lemma QInv_new : QInv (wb_new W false false) 0.
+Proof. constructor; cbn; try reflexivity; try constructor. lia. Qed.
+
+Lemma tagged_fold_push v : forall l,
+  Forall tagged v -> Forall tagged (tv l) -> Forall tagged (tv (fold_left tl_push v l)).
+Proof.
+  induction v as [|e v IH]; intros l Hv Hl; cbn [fold_left]; [exact Hl|].
+  inversion Hv as [|? ? He Hv']; subst. apply IH; [exact Hv'|].
+  destruct He as [s ->]. cbn [tl_push]. apply tagged_push_str, Hl.
+Qed.
+
+Lemma q_flush m b col :
+  QInv b col -> word_is_empty (wword b) = false ->
+  exists b', flush_word b m = Ok b' /\ QInv b' col /\ wordlen b' = 0.
+Proof.
+  intros [Hw Hpad Hpw Hcol Hfit Htagl Htagw Hvw Hst Htext] Hne.
+  unfold flush_word. rewrite Hne. prjs.
+  rewrite usub_ok by lia. cbn [bind].
+  destruct (N.leb_spec (wslen b + wordlen b) (wwidth b - tlen_ (wline b))) as [_|Hbad]; [|lia].
+  destruct (N.ltb_spec 0 (wslen b)) as [Hpos|Hzero].
+  - destruct (spacetag b) as [st|] eqn:Est; [subst st|lia].
+    cbn [bind]. prjs.
+    eexists. split; [reflexivity|]. split; [|reflexivity].
+    constructor; prjs; try assumption; try reflexivity.
+    + rewrite tlen_fold_push, tlen_push. cbn [elem_text]. rewrite swidth_spacesl. lia.
+    + apply tagged_fold_push; [exact Htagw|]. cbn [tl_push]. apply tagged_push_str, Htagl.
+    + constructor.
+  - cbn [bind]. prjs.
+    eexists. split; [reflexivity|]. split; [|reflexivity].
+    constructor; prjs; try assumption; try reflexivity.
+    + rewrite tlen_fold_push. lia.
+    + apply tagged_fold_push; assumption.
+    + constructor.
+Qed.
+
+Lemma q_preflush b col :
+  QInv b col ->
+  exists b', (if 0 <? wordlen b then flush_word b WsPre else Ok b) = Ok b' /\
+             QInv b' col /\ wordlen b' = 0 /\ wtext b' = wtext b.
+Proof.
+  intros HI. destruct (N.ltb_spec 0 (wordlen b)) as [Hpos|Hz].
+  - assert (Hne : word_is_empty (wword b) = false).
+    { destruct (word_is_empty (wword b)) eqn:E; [|reflexivity].
+      apply word_is_empty_vw in E. rewrite (Q_vw _ _ HI) in E. lia. }
+    destruct (q_flush WsPre b col HI Hne) as (b' & E & HI' & Hz).
+    exists b'. split; [exact E|]. split; [exact HI'|]. split; [exact Hz|].
+    (* flush_word in the fitting branch leaves wtext alone *)
+    revert E. unfold flush_word. rewrite Hne. prjs.
+    destruct HI as [Hw Hpad Hpw Hcol Hfit Htagl Htagw Hvw Hst Htext].
+    rewrite usub_ok by lia. cbn [bind].
+    destruct (N.leb_spec (wslen b + wordlen b) (wwidth b - tlen_ (wline b))) as [_|Hbad]; [|lia].
+    destruct (N.ltb_spec 0 (wslen b)) as [Hp|Hp].
+    + destruct (spacetag b) as [st|]; [|lia]. cbn [bind]. intros E. injection E as <-. reflexivity.
+    + cbn [bind]. intros E. injection E as <-. reflexivity.
+  - exists b. split; [reflexivity|]. split; [exact HI|]. split; [lia|reflexivity].
+Qed.
+
+Lemma q_step c b col :
+  QInv b col -> cp c <> 10 -> chr_ok c -> col + swidth (expand [c] col) <= W ->
+  exists b', add_char WsPre t1 t2 (b, false) c = Ok (b', false) /\
+             QInv b' (col + swidth (expand [c] col)).
+Proof.
+  intros HI Hnl Hok Hfit'. rewrite expand1 in *. unfold add_char.
+  destruct (ws c) eqn:Hws.
+  - destruct (q_preflush b col HI) as (b' & E & HI' & Hz & Htx).
+    cbn [andb]. rewrite E. cbn [bind preserve_ws]. clear E HI.
+    destruct HI' as [Hw Hpad Hpw Hcol Hfit Htagl Htagw Hvw Hst Htext].
+    destruct (N.eqb_spec (cp c) 10) as [|_]; [contradiction|].
+    destruct (N.eqb_spec (cp c) 9) as [H9|H9].
+    + rewrite swidth_rep in *.
+      assert (Epos : tlen_ (wline b') + wslen b' = col) by lia. rewrite Epos.
+      rewrite tab_false; [| lia | lia].
+      cbn [bind]. eexists. split; [reflexivity|].
+      constructor; prjs; try assumption.
+      * rewrite pushl_tlen. lia.
+      * apply pushl_tagged, Htagl.
+    + destruct (cw c) as [cwidth|] eqn:Ecw.
+      * rewrite swidth_rep in *.
+        destruct (N.ltb_spec (wwidth b') (tlen_ (wline b') + wslen b' + cwidth)) as [Hbad|_]; [lia|].
+        eexists. split; [reflexivity|].
+        constructor; prjs; try assumption; try reflexivity. lia.
+      * rewrite swidth_nil, N.add_0_r in *.
+        eexists. split; [reflexivity|].
+        constructor; prjs; assumption.
+  - cbn [andb bind negb].
+    destruct HI as [Hw Hpad Hpw Hcol Hfit Htagl Htagw Hvw Hst Htext].
+    assert (H9 : cp c <> 9).
+    { intros H9. assert (Hc : ws c = true) by (apply Hok; left; exact H9). congruence. }
+    destruct (N.eqb_spec (cp c) 9) as [|_]; [contradiction|].
+    destruct (cw c) as [cwidth|] eqn:Ecw.
+    + assert (Ecw0 : cw0 c = cwidth) by (unfold cw0; rewrite Ecw; reflexivity).
+      rewrite swidth_cons, swidth_nil, Ecw0, N.add_0_r in *.
+      cbn [is_pre].
+      destruct (N.ltb_spec (wwidth b) (tlen_ (wline b) + wslen b + (wordlen b + cwidth)))
+        as [Hbad|_]; [lia|].
+      cbn [andb orb]. eexists. split; [reflexivity|].
+      constructor; prjs; try assumption; try reflexivity.
+      * lia.
+      * apply tagged_push_merge, Htagw.
+      * rewrite vw_push_merge, swidth_cons, swidth_nil, Ecw0. lia.
+    + rewrite swidth_nil, N.add_0_r in *.
+      eexists. split; [reflexivity|].
+      constructor; prjs; assumption.
+Qed.
+
+Lemma q_step_nl c b col :
+  QInv b col -> cp c = 10 -> ws c = true ->
+  exists b', add_char WsPre t1 t2 (b, false) c = Ok (b', false) /\ QInv b' 0.
+Proof.
+  intros HI H10 Hws. unfold add_char. rewrite Hws. cbn [andb].
+  destruct (q_preflush b col HI) as (b' & E & HI' & Hz & Htx).
+  rewrite E. cbn [bind preserve_ws]. clear E HI.
+  destruct HI' as [Hw Hpad Hpw Hcol Hfit Htagl Htagw Hvw Hst Htext].
+  rewrite H10. cbn [N.eqb Pos.eqb]. unfold force_flush_line. rewrite Hpad. cbn [bind].
+  eexists. split; [reflexivity|].
+  constructor; prjs; try assumption; try reflexivity; try (cbn; lia).
+  - constructor.
+  - apply Forall_app. split; [exact Htext|]. constructor; [exact Htagl|constructor].
+Qed.
+
+Lemma q_sim : forall s b p,
+  QInv b (swidth (expand p 0)) -> Forall chr_ok s ->
+  Forall fitsW (split_lines_aux s (rev p)) ->
+  exists b' col, add_chars WsPre t1 t2 (b, false) s = Ok (b', false) /\ QInv b' col.
+Proof.
+  induction s as [|c s IH]; intros b p HI Hok Hfits.
+  - exists b, (swidth (expand p 0)). split; [reflexivity|exact HI].
+  - inversion Hok as [|? ? Hc Hok']; subst.
+    cbn [add_chars split_lines_aux] in *.
+    destruct (N.eqb_spec (cp c) 10) as [H10|H10].
+    + assert (Hws : ws c = true) by (apply Hc; right; exact H10).
+      destruct (q_step_nl c b _ HI H10 Hws) as (b1 & E & HI1).
+      rewrite E. cbn [bind].
+      inversion Hfits as [|? ? _ Hfits']; subst.
+      exact (IH b1 [] HI1 Hok' Hfits').
+    + rewrite <- rev_unit in Hfits.
+      pose proof (fits_head _ _ Hfits) as Hfit1.
+      rewrite expand_app, swidth_app, N.add_0_l in Hfit1.
+      destruct (q_step c b _ HI H10 Hc Hfit1) as (b1 & E & HI1).
+      rewrite E. cbn [bind].
+      apply (IH b1 (p ++ [c])); [|exact Hok'|exact Hfits].
+      rewrite expand_app, swidth_app, N.add_0_l. exact HI1.
+Qed.
+
+Lemma q_final b col :
+  QInv b col -> exists ls, wb_into_lines b = Ok ls /\ linesT ls.
+Proof.
+  intros HI.
+  assert (H1 : exists b1, flush_word b WsNormal = Ok b1 /\ QInv b1 col).
+  { destruct (word_is_empty (wword b)) eqn:Ee.
+    - exists (set_word b (wword b) 0). unfold flush_word. rewrite Ee. split; [reflexivity|].
+      pose proof (word_is_empty_vw _ Ee) as Hv0.
+      destruct HI as [Hw Hpad Hpw Hcol Hfit Htagl Htagw Hvw Hst Htext].
+      constructor; prjs; try assumption; lia.
+    - destruct (q_flush WsNormal b col HI Ee) as (b1 & E & HI1 & _).
+      exists b1. split; assumption. }
+  destruct H1 as (b1 & E & HI1).
+  unfold wb_into_lines, wb_flush. rewrite E. cbn [bind]. clear E HI.
+  destruct HI1 as [Hw Hpad Hpw Hcol Hfit Htagl Htagw Hvw Hst Htext].
+  unfold flush_line. destruct (tl_is_empty (wline b1)).
+  - cbn [bind]. eexists. split; [reflexivity|exact Htext].
+  - unfold force_flush_line. rewrite Hpad. cbn [bind]. prjs.
+    eexists. split; [reflexivity|].
+    apply Forall_app. split; [exact Htext|]. constructor; [exact Htagl|constructor].
+Qed.
+
+Lemma run_tags src :
+  ctl_ws src -> Forall fitsW (split_lines src) ->
+  exists b ls,
+    wb_add_text (wb_new W false false) src WsPre t1 t2 = Ok b /\
+    wb_into_lines b = Ok ls /\ linesT ls.
+Proof.
+  intros Hok Hfits.
+  destruct (q_sim src (wb_new W false false) [] QInv_new Hok Hfits) as (b' & col & E & HI').
+  destruct (q_final b' col HI') as (ls & Ef & HT).
+  exists b', ls.
+  split; [unfold wb_add_text; cbn [wb_new pre_wrapped]; rewrite E; reflexivity|].
+  split; assumption.
+Qed.
+
 End Pre.
 
 (* ------------------------------------------------------------------ *)
@@ -673,19 +876,177 @@ Proof.
   intros W src t1 t2 _ Hok Hwp Hfits.
   destruct (run_spec W t1 t2 src Hok Hwp Hfits) as (b & ls & E1 & E2 & HF).
   exists (map tl_string ls). unfold pre_lines. rewrite E1. cbn [bind]. rewrite E2. cbn [bind].
-  split; [reflexivity|]. exact (LineR_rstrip W t1 ls _ HF).
+  split; [reflexivity|]. exact (LineR_rstrip t1 ls _ HF).
 Qed.
 
+(* tags: needs neither `words_pos` nor a look at the strings *)
 Theorem c12_fits_main_tag : forall W src t1 t2 b,
-  1 <= W -> ctl_ws src -> words_pos src -> fits W src ->
+  1 <= W -> ctl_ws src -> fits W src ->
   wb_add_text (wb_new W false false) src WsPre t1 t2 = Ok b ->
   forall l ls, wb_into_lines b = Ok ls -> In l ls ->
   forall s t, In (Str s t) (tv l) -> t = t1.
 Proof.
-  intros W src t1 t2 b _ Hok Hwp Hfits Eb l ls Els Hin s t Hst.
-  destruct (run_spec W t1 t2 src Hok Hwp Hfits) as (b0 & ls0 & E1 & E2 & HF).
+  intros W src t1 t2 b _ Hok Hfits Eb l ls Els Hin s t Hst.
+  destruct (run_tags W t1 t2 src Hok Hfits) as (b0 & ls0 & E1 & E2 & HT).
   rewrite Eb in E1. injection E1 as <-. rewrite Els in E2. injection E2 as <-.
-  clear Eb Els. induction HF as [|l0 p ls fin [_ Ht] _ IH]; [contradiction|].
-  destruct Hin as [->|Hin]; [|exact (IH Hin)].
-  rewrite Forall_forall in Ht. destruct (Ht _ Hst) as [s' Es]. congruence.
+  unfold linesT in HT. rewrite Forall_forall in HT. specialize (HT l Hin).
+  rewrite Forall_forall in HT. destruct (HT _ Hst) as [s' Es]. congruence.
 Qed.
+
+(* the number of output lines *)
+Corollary c12_line_count : forall W src t1 t2 ls,
+  1 <= W -> ctl_ws src -> words_pos src -> fits W src ->
+  pre_lines W src t1 t2 = Ok ls -> length ls = length (kept_lines src).
+Proof.
+  intros W src t1 t2 ls HW Hok Hwp Hfits E.
+  destruct (c12_verbatim W src t1 t2 HW Hok Hwp Hfits) as (ls0 & E0 & Hm).
+  rewrite E in E0. injection E0 as <-.
+  apply (f_equal (@length text)) in Hm. rewrite !map_length in Hm. exact Hm.
+Qed.
+
+(* boolean forms of the hypotheses, for concrete sources *)
+Lemma ctl_ws_dec src :
+  forallb (fun c => implb ((cp c =? 9) || (cp c =? 10)) (ws c)) src = true -> ctl_ws src.
+Proof.
+  intros H. rewrite forallb_forall in H. apply Forall_forall. intros c Hc [E|E];
+    specialize (H c Hc); rewrite E in H; cbn in H; exact H.
+Qed.
+
+Lemma words_pos_dec src :
+  forallb (fun w => 1 <=? swidth w) (words_of src) = true -> words_pos src.
+Proof.
+  intros H w Hw. rewrite forallb_forall in H. specialize (H w Hw). lia.
+Qed.
+
+Lemma fits_dec W src :
+  forallb (fun l => swidth (expand l 0) <=? W) (split_lines src) = true -> fits W src.
+Proof.
+  intros H. rewrite forallb_forall in H. apply Forall_forall. intros l Hl.
+  specialize (H l Hl). lia.
+Qed.
+
+(* ------------------------------------------------------------------ *)
+(* Part 8: examples *)
+
+Definition ex_a := mkchr 97 (Some 1) false 16.
+Definition ex_b := mkchr 98 (Some 1) false 17.
+Definition ex_sp := mkchr 32 (Some 1) true 18.
+Definition ex_nl := mkchr 10 None true 19.
+Definition ex_tab := mkchr 9 None true 20.
+Definition ex_wide := mkchr 20013 (Some 2) false 21.   (* width 2 *)
+Definition ex_zw := mkchr 769 (Some 0) false 22.       (* combining mark, width 0 *)
+Definition ex_ctl := mkchr 7 None false 23.            (* control character, no width *)
+Definition ex_wsp := mkchr 12288 (Some 2) true 24.     (* ideographic space, width 2 *)
+Definition ex_ctlws := mkchr 133 None true 25.         (* NEL: whitespace without width *)
+Definition ex_t1 : tag := [APre false].
+Definition ex_t2 : tag := [APre true].
+
+(* four source lines: "  ab<TAB>a<zw>  ", "", " <wide><ctl>b<wsp>a ", "b<NEL>a" *)
+Definition ex_src : text :=
+  [ex_sp; ex_sp; ex_a; ex_b; ex_tab; ex_a; ex_zw; ex_sp; ex_sp; ex_nl;
+   ex_nl;
+   ex_sp; ex_wide; ex_ctl; ex_b; ex_wsp; ex_a; ex_sp; ex_nl;
+   ex_b; ex_ctlws; ex_a].
+
+Example c12_nonvacuous :
+  exists ls, pre_lines 30 ex_src ex_t1 ex_t2 = Ok ls /\
+    map rstrip ls = map (fun l => rstrip (expand l 0)) (kept_lines ex_src).
+Proof.
+  apply c12_verbatim.
+  - lia.
+  - apply ctl_ws_dec. vm_compute. reflexivity.
+  - apply words_pos_dec. vm_compute. reflexivity.
+  - apply fits_dec. vm_compute. reflexivity.
+Qed.
+
+Example c12_nonvacuous_value :
+  let s := spacel L_space in
+  pre_lines 30 ex_src ex_t1 ex_t2 =
+    Ok [ [s; s; ex_a; ex_b; s; s; s; s; ex_a; ex_zw];
+         [];
+         [s; ex_wide; ex_b; s; s; ex_a];
+         [ex_b; ex_a] ] /\
+  map cps (kept_lines ex_src) =
+    [ [32; 32; 97; 98; 9; 97; 769; 32; 32]; []; [32; 20013; 7; 98; 12288; 97; 32]; [98; 133; 97] ].
+Proof. vm_compute. split; reflexivity. Qed.
+
+(* boundary behaviour of the last line *)
+Example c12_trailing_newline :      (* "a\n": one line, nothing for the empty rest *)
+  pre_lines 30 [ex_a; ex_nl] ex_t1 ex_t2 = Ok [[ex_a]] /\ kept_lines [ex_a; ex_nl] = [[ex_a]].
+Proof. vm_compute. split; reflexivity. Qed.
+Example c12_blank_lines_kept :      (* "a\n\n  \nb": four lines, two of them blank *)
+  pre_lines 30 [ex_a; ex_nl; ex_nl; ex_sp; ex_sp; ex_nl; ex_b] ex_t1 ex_t2
+    = Ok [[ex_a]; []; []; [ex_b]].
+Proof. vm_compute. reflexivity. Qed.
+Example c12_final_spaces_dropped :  (* "a\n  ": the final spaces-only piece gives no line *)
+  pre_lines 30 [ex_a; ex_nl; ex_sp; ex_sp] ex_t1 ex_t2 = Ok [[ex_a]] /\
+  kept_lines [ex_a; ex_nl; ex_sp; ex_sp] = [[ex_a]].
+Proof. vm_compute. split; reflexivity. Qed.
+Example c12_final_tab_kept :        (* "a\n\t": the final tab-only piece gives a line of spaces *)
+  pre_lines 30 [ex_a; ex_nl; ex_tab] ex_t1 ex_t2
+    = Ok [[ex_a]; repeat_chr (spacel L_space) 8] /\
+  kept_lines [ex_a; ex_nl; ex_tab] = [[ex_a]; [ex_tab]].
+Proof. vm_compute. split; reflexivity. Qed.
+Example c12_empty_source : pre_lines 30 [] ex_t1 ex_t2 = Ok [] /\ kept_lines [] = [].
+Proof. vm_compute. split; reflexivity. Qed.
+
+(* why `words_pos`: a zero-width word is not flushed by whitespace *)
+Example cx_zero_width_word_slides :   (* "a <zw> b": the mark ends up behind the second space *)
+  let src := [ex_a; ex_sp; ex_zw; ex_sp; ex_b] in
+  ctl_ws src /\ fits 30 src /\
+  pre_lines 30 src ex_t1 ex_t2 = Ok [[ex_a; spacel L_space; spacel L_space; ex_zw; ex_b]] /\
+  map (fun l => rstrip (expand l 0)) (kept_lines src)
+    = [[ex_a; spacel L_space; ex_zw; spacel L_space; ex_b]].
+Proof.
+  cbv zeta. split; [apply ctl_ws_dec; vm_compute; reflexivity|].
+  split; [apply fits_dec; vm_compute; reflexivity|]. vm_compute. split; reflexivity.
+Qed.
+Example cx_zero_width_word_next_line :   (* "a <zw>\nb": the mark moves to the next line *)
+  let src := [ex_a; ex_sp; ex_zw; ex_nl; ex_b] in
+  ctl_ws src /\ fits 30 src /\
+  pre_lines 30 src ex_t1 ex_t2 = Ok [[ex_a]; [ex_zw; ex_b]] /\
+  map (fun l => rstrip (expand l 0)) (kept_lines src) = [[ex_a; spacel L_space; ex_zw]; [ex_b]].
+Proof.
+  cbv zeta. split; [apply ctl_ws_dec; vm_compute; reflexivity|].
+  split; [apply fits_dec; vm_compute; reflexivity|]. vm_compute. split; reflexivity.
+Qed.
+
+(* why `ctl_ws`: the model recognises newline and tab only among whitespace characters *)
+Definition ex_badnl := mkchr 10 None false 30.
+Definition ex_badtab := mkchr 9 None false 31.
+Example cx_newline_not_whitespace :
+  let src := [ex_a; ex_badnl; ex_b] in
+  words_pos src /\ fits 30 src /\
+  pre_lines 30 src ex_t1 ex_t2 = Ok [[ex_a; ex_b]] /\
+  map (fun l => rstrip (expand l 0)) (kept_lines src) = [[ex_a]; [ex_b]].
+Proof.
+  cbv zeta. split; [apply words_pos_dec; vm_compute; reflexivity|].
+  split; [apply fits_dec; vm_compute; reflexivity|]. vm_compute. split; reflexivity.
+Qed.
+Example cx_tab_not_whitespace :
+  let src := [ex_a; ex_badtab; ex_b] in
+  words_pos src /\ fits 30 src /\
+  pre_lines 30 src ex_t1 ex_t2 = Ok [[ex_a; ex_b]] /\
+  map (fun l => rstrip (expand l 0)) (kept_lines src)
+    = [[ex_a] ++ repeat_chr (spacel L_space) 7 ++ [ex_b]].
+Proof.
+  cbv zeta. split; [apply words_pos_dec; vm_compute; reflexivity|].
+  split; [apply fits_dec; vm_compute; reflexivity|]. vm_compute. split; reflexivity.
+Qed.
+(* ... and then the continuation tag does appear although every source line fits *)
+Example cx_newline_not_whitespace_tag :
+  let src := [ex_a; ex_a; ex_a; ex_a; ex_badnl; ex_b; ex_b; ex_b; ex_b] in
+  words_pos src /\ fits 4 src /\
+  (do b <- wb_add_text (wb_new 4 false false) src WsPre ex_t1 ex_t2; wb_into_lines b)
+    = Ok [ mktl [Str [ex_a; ex_a; ex_a; ex_a] ex_t1] 4;
+           mktl [Str [ex_b; ex_b; ex_b; ex_b] ex_t2] 4 ].
+Proof.
+  cbv zeta. split; [apply words_pos_dec; vm_compute; reflexivity|].
+  split; [apply fits_dec; vm_compute; reflexivity|]. vm_compute. reflexivity.
+Qed.
+
+Print Assumptions c12_verbatim.
+Print Assumptions c12_verbatim_prefix.
+Print Assumptions c12_fits_main_tag.
+Print Assumptions c12_line_count.
+Print Assumptions c12_nonvacuous.
